@@ -100,10 +100,9 @@ Proof.
   vm_compute. repeat split; reflexivity.
 Qed.
 
-(* findings C06-bright-bgoff / -mlclass-score-data / -ctc-undeclared-
-   crosstalk / -emodulus-stale-viscosity: a read that returns a value a fresh
-   dataset would not compute.  Witness: 2-channel crosstalk correction,
-   then "crosstalk fl13" changes. *)
+(* findings C06-ctc-undeclared-crosstalk / -emodulus-stale-viscosity: a read
+   that returns a value a fresh dataset would not compute.  Witness:
+   2-channel crosstalk correction, then "crosstalk fl13" changes. *)
 Lemma read_fresh_refuted :
   exists (b : base) (ops : list op) (f : Z),
     let st := run_state registry (fresh b) ops in
@@ -115,11 +114,27 @@ Proof.
   vm_compute. do 2 eexists. repeat split; try reflexivity. discriminate.
 Qed.
 
-(* ---- the generic coherence theorem instantiated with the table ---- *)
+(* ---- the generic theorems instantiated with the table ---- *)
+Lemma registry_recipes_coherent :
+  forall r, In r registry -> known_incomplete r = false ->
+    uses_covered r = true /\ plain_method r = true /\ extra_ok r = true
+    /\ forallb is_idata (r_extra r) = true.
+Proof.
+  assert (H : forallb (fun r => known_incomplete r
+                || (uses_covered r && plain_method r && extra_ok r
+                    && forallb is_idata (r_extra r))) registry = true)
+    by (vm_compute; reflexivity).
+  intros r Hin Hk. rewrite forallb_forall in H. specialize (H r Hin).
+  rewrite Hk in H. cbn [orb] in H.
+  apply andb_prop in H. destruct H as [H H4].
+  apply andb_prop in H. destruct H as [H H3].
+  apply andb_prop in H. destruct H as [H1 H2]. auto.
+Qed.
+
 Lemma registry_read_coherent : forall b ops f,
   let st := run_state registry (fresh b) ops in
-  select AF registry st f = select AF registry (clear st) f ->
-  (forall r, select AF registry st f = Some r ->
+  select SF registry st f = select SF registry (clear st) f ->
+  (forall r, select SF registry st f = Some r ->
      forallb (in_base (s_base st)) (r_feats r) = true
      /\ known_incomplete r = false) ->
   snd (read RF registry st f) = snd (read RF registry (clear st) f).
@@ -128,18 +143,75 @@ Proof.
   apply history_read_coherent; auto using registry_collide_ok.
   intros r Hr. destruct (Hg r Hr) as [Hflat Hk].
   destruct (select_some _ _ _ _ _ Hr) as [Hin _].
-  split; [exact Hflat|]. split; [now apply registry_complete_partial|].
-  assert (H : forallb (fun r => known_incomplete r
-                || (plain_method r && negb (rf_hashed r)
-                    && match r_extra r with [] => true | _ => false end))
-                registry = true)
-    by (vm_compute; reflexivity).
-  rewrite forallb_forall in H. specialize (H r Hin). rewrite Hk in H.
-  cbn [orb] in H. apply andb_prop in H. destruct H as [H H2].
-  apply andb_prop in H. destruct H as [H0 H1].
-  split; [exact H0|].
-  split; [now apply negb_true_iff in H1|].
-  destruct (r_extra r); [reflexivity|discriminate H2].
+  destruct (registry_recipes_coherent r Hin Hk) as [H1 [H2 [H3 H4]]].
+  unfold coherent_recipe.
+  apply andb_true_intro; split; [|exact H4].
+  apply andb_true_intro; split; [|exact H3].
+  apply andb_true_intro; split; [|exact H2].
+  apply andb_true_intro; split; [exact Hflat|exact H1].
+Qed.
+
+(* available exactly when reading succeeds, for every recipe of the table
+   outside the emodulus / 2-channel crosstalk findings *)
+Lemma registry_available_iff_readable : forall st f,
+  (has f (s_cache st) = true ->
+   in_base (s_base st) f = true \/ select SF registry st f <> None) ->
+  (forall r, select SF registry st f = Some r ->
+     forallb (in_base (s_base st)) (r_feats r) = true
+     /\ known_incomplete r = false) ->
+  (contains AF registry st f = true
+   <-> exists v, snd (read RF registry st f) = Ok v).
+Proof.
+  intros st f Hc Hg. apply available_iff_readable; [exact Hc|].
+  intros r Hr. destruct (Hg r Hr) as [Hflat Hk].
+  destruct (select_some _ _ _ _ _ Hr) as [Hin _].
+  destruct (registry_recipes_coherent r Hin Hk) as [_ [H2 _]]. auto.
+Qed.
+
+(* what a fresh dataset returns is the method on the current ingredients *)
+Lemma registry_fresh_is_spec : forall b f r,
+  feat_raw b f = None -> select SF registry (fresh b) f = Some r ->
+  forallb (in_base b) (r_feats r) = true -> known_incomplete r = false ->
+  snd (read RF registry (fresh b) f) = Ok (spec_value registry b r f).
+Proof.
+  intros b f r Hf Hr Hflat Hk. apply read_fresh_is_spec; auto.
+  destruct (select_some _ _ _ _ _ Hr) as [Hin _].
+  now destruct (registry_recipes_coherent r Hin Hk) as [_ [H2 _]].
+Qed.
+
+(* ---- pinned declarations: the recipes of the emodulus, of the crosstalk
+   correction and of "time" declare at least what the reviewed tree
+   declared (name, priority, required features, required keys) ---- *)
+Definition baseline : list (Z * Z * list Z * list Z) :=
+  [ (f_emodulus, 5, [10; 11], [5; 1; 2; 3; 8; 9; 10]);
+    (f_emodulus, 1, [10; 11; 1], [5; 1; 2; 8; 9; 10]);
+    (f_emodulus, 4, [10; 11], [1; 2; 3; 8; 9; 10]);
+    (f_emodulus, 0, [10; 11; 1], [1; 2; 8; 9; 10]);
+    (f_emodulus, 2, [10; 11], [1; 4; 8; 9; 10]);
+    (f_fl1_ctc, 1, [2; 3; 4], [11; 12; 13; 14; 15; 16]);
+    (f_fl2_ctc, 1, [2; 3; 4], [11; 12; 13; 14; 15; 16]);
+    (f_fl3_ctc, 1, [2; 3; 4], [11; 12; 13; 14; 15; 16]);
+    (f_fl1_ctc, 0, [2; 3], [11; 13]);
+    (f_fl2_ctc, 0, [2; 3], [11; 13]);
+    (f_fl1_ctc, 0, [2; 4], [12; 15]);
+    (f_fl3_ctc, 0, [2; 4], [12; 15]);
+    (f_fl2_ctc, 0, [3; 4], [14; 16]);
+    (f_fl3_ctc, 0, [3; 4], [14; 16]);
+    (f_time, 0, [f_frame], [k_frame_rate]) ].
+
+Definition declares_at_least (b : Z * Z * list Z * list Z) (r : recipe) : bool :=
+  let '(n, p, fs, ks) := b in
+  (r_name r =? n) && (r_prio r =? p) && list_eqb Z.eqb (r_feats r) fs
+  && forallb (fun k => memZ k (r_keys r)) ks.
+
+Lemma registry_declares_baseline :
+  forall b, In b baseline ->
+    exists r, In r registry /\ declares_at_least b r = true.
+Proof.
+  assert (H : forallb (fun b => existsb (declares_at_least b) registry)
+                baseline = true) by (vm_compute; reflexivity).
+  intros b Hb. rewrite forallb_forall in H. specialize (H b Hb).
+  now apply existsb_exists in H.
 Qed.
 
 (* non-vacuity: a history that changes the frame rate between two reads of
@@ -148,8 +220,8 @@ Example registry_read_coherent_example :
   let b := mkBase [(f_frame, 0)] [] [(k_frame_rate, 1)] in
   let ops := [Read f_time; SetCfg k_frame_rate 2] in
   let st := run_state registry (fresh b) ops in
-  select AF registry st f_time = select AF registry (clear st) f_time
-  /\ (forall r, select AF registry st f_time = Some r ->
+  select SF registry st f_time = select SF registry (clear st) f_time
+  /\ (forall r, select SF registry st f_time = Some r ->
        forallb (in_base (s_base st)) (r_feats r) = true
        /\ known_incomplete r = false)
   /\ has f_time (s_cache st) = true
@@ -174,8 +246,8 @@ Example registry_read_coherent_example_ctc :
                   [(11, 1); (12, 1); (13, 1); (14, 1); (15, 1); (16, 1)] in
   let ops := [Read f_fl1_ctc; SetCfg 15 2] in
   let st := run_state registry (fresh b) ops in
-  select AF registry st f_fl1_ctc = select AF registry (clear st) f_fl1_ctc
-  /\ (forall r, select AF registry st f_fl1_ctc = Some r ->
+  select SF registry st f_fl1_ctc = select SF registry (clear st) f_fl1_ctc
+  /\ (forall r, select SF registry st f_fl1_ctc = Some r ->
        forallb (in_base (s_base st)) (r_feats r) = true
        /\ known_incomplete r = false)
   /\ has f_fl1_ctc (s_cache st) = true.
@@ -184,4 +256,56 @@ Proof.
   - intros r H. vm_compute in H. inversion H. subst r. vm_compute.
     split; reflexivity.
   - vm_compute. reflexivity.
+Qed.
+
+(* non-vacuity for a recipe with a hashed req_func result (ml_class after the
+   repair): a score is replaced between two reads *)
+Example registry_read_coherent_example_ml :
+  let b := mkBase [(f_deform, 0)] [(f_ml_a, 1); (f_ml_b, 1)] [] in
+  let ops := [Read f_ml_class; SetTemp f_ml_a 2] in
+  let st := run_state registry (fresh b) ops in
+  select SF registry st f_ml_class = select SF registry (clear st) f_ml_class
+  /\ (forall r, select SF registry st f_ml_class = Some r ->
+       forallb (in_base (s_base st)) (r_feats r) = true
+       /\ known_incomplete r = false /\ rf_hashed r = true)
+  /\ has f_ml_class (s_cache st) = true.
+Proof.
+  cbv zeta. split; [vm_compute; reflexivity|]. split.
+  - intros r H. vm_compute in H. inversion H. subst r. vm_compute.
+    repeat split; reflexivity.
+  - vm_compute. reflexivity.
+Qed.
+
+(* ... and for bright_bc_avg with the optional bg_off *)
+Example registry_read_coherent_example_bgoff :
+  let b := mkBase [(f_image, 0); (f_image_bg, 0); (f_mask, 0)] [] [] in
+  let ops := [Read f_bright_bc_avg; SetTemp f_bg_off 1] in
+  let st := run_state registry (fresh b) ops in
+  select SF registry st f_bright_bc_avg
+  = select SF registry (clear st) f_bright_bc_avg
+  /\ (forall r, select SF registry st f_bright_bc_avg = Some r ->
+       forallb (in_base (s_base st)) (r_feats r) = true
+       /\ known_incomplete r = false /\ rf_hashed r = true)
+  /\ has f_bright_bc_avg (s_cache st) = true.
+Proof.
+  cbv zeta. split; [vm_compute; reflexivity|]. split.
+  - intros r H. vm_compute in H. inversion H. subst r. vm_compute.
+    repeat split; reflexivity.
+  - vm_compute. reflexivity.
+Qed.
+
+(* non-vacuity of available_iff_readable: both directions occur *)
+Example registry_available_iff_readable_example :
+  let st1 := fresh (mkBase [(f_frame, 0)] [] [(k_frame_rate, 1)]) in
+  let st0 := fresh (mkBase [(f_frame, 0)] [] []) in
+  contains AF registry st1 f_time = true
+  /\ contains AF registry st0 f_time = false
+  /\ (forall r, select SF registry st1 f_time = Some r ->
+       forallb (in_base (s_base st1)) (r_feats r) = true
+       /\ known_incomplete r = false).
+Proof.
+  cbv zeta. split; [vm_compute; reflexivity|].
+  split; [vm_compute; reflexivity|].
+  intros r H. vm_compute in H. inversion H. subst r. vm_compute.
+  split; reflexivity.
 Qed.
